@@ -255,7 +255,8 @@ hand("check_proc_sound", """: forall (sizes : list nat) (cB : nat -> list bool -
     (eP : list (entry poly)) (eB : list (entry bool)),
   Forall2 (entry_hom sizes) eP eB -> check_proc sizes code eP = true ->
   forall m : mem bool, shaped sizes m -> fst (execB cB code (m, [])) = mixed_sem cB eB m""")
-PCT = [(WC, "pctr_final"), (WC, "cspec_hom"), (WP, "check_proc_sound")]
+WCM = "WholeCtrModel.v"
+PCT = [(WCM, "pctr_model"), (WCM, "incB_spec"), (WC, "pctr_final"), (WC, "cspec_hom"), (WP, "check_proc_sound")]
 for pid, items in (("C05", PCT),):
     if pid in PLAN:
-        add_imports(pid, WHI + ["ModelCipher", "WholeProc", "WholeCtr"]); PLAN[pid] += items
+        add_imports(pid, WHI + ["ModelCipher", "ModelCtr", "WholeProc", "WholeCtr", "WholeCtrModel"]); PLAN[pid] += items
